@@ -238,7 +238,9 @@ def run_case(ctx, case):
         ctx.check("break_record_closes_split_column_groups", okb,
                   lambda: det({"split_columns": sorted(split_cols), "groups": groups, "partition_side": pb_eff}))
     cols_seen = [g[0] for g in groups]
-    ctx.check("column_groups_contiguous_and_ascending", cols_seen == sorted(set(cols_seen)), lambda: det({"group_columns": cols_seen}))
+    # one contiguous run of pairs per column of the partitioning side (their order is C18's business, and only
+    # decided for columns 1..99 there)
+    ctx.check("column_groups_contiguous", len(cols_seen) == len(set(cols_seen)), lambda: det({"group_columns": cols_seen}))
     # ---------------- metamorphic: permuted triples + another partition mode, fresh identical labware
     rng = random.Random(case["perm_seed"])
     order = list(range(n))
